@@ -1334,6 +1334,21 @@ func scanFieldUnset(c *core.Ctx) []ob {
 					}
 					write := false
 					switch p := parent.(type) {
+					case *ast.IndexExpr:
+						// x.F[i] = v : an element of an array field is part of the field itself
+						if p.X == node {
+							if _, isArr := f.Type().Underlying().(*types.Array); isArr {
+								var n2 ast.Node = p
+								par2 := pm[n2]
+								if as, ok := par2.(*ast.AssignStmt); ok {
+									for _, l := range as.Lhs {
+										if l == n2 {
+											write = true
+										}
+									}
+								}
+							}
+						}
 					case *ast.AssignStmt:
 						for _, l := range p.Lhs {
 							if l == node {
